@@ -307,6 +307,101 @@ pub fn eval(c: &Case) -> (Vec<Finding>, String) {
     }
 }
 
+// ------------------------------------------------------------------------------------------
+// Part C: the exclude-list clause under contention – a registration whose exclude list names a
+// held credential must be refused in EVERY interleaving with a concurrent ceremony that keeps the
+// shared store busy (schedule exploration as in C19)
+
+fn contention_system(lock: &str) -> (Vec<crate::core::exec::Task>, Arc<std::sync::Mutex<Option<Result<(), u8>>>>, Box<dyn Fn() -> usize>) {
+    use crate::core::exec::Task;
+    let result: Arc<std::sync::Mutex<Option<Result<(), u8>>>> = Arc::new(std::sync::Mutex::new(None));
+    let held = seeded(&Seed { n: 1, rp: RPS[0].into(), handle: Some(vec![1]), counter: Some(1), hmac: None });
+    let m: MemoryStore = [(held.credential_id.to_vec(), held)].into_iter().collect();
+    fn tasks<S>(shared: S, result: Arc<std::sync::Mutex<Option<Result<(), u8>>>>) -> Vec<Task>
+    where
+        S: CredentialStore<PasskeyItem = Passkey> + Send + Sync + Clone + 'static,
+    {
+        let s1 = shared.clone();
+        let r1 = result.clone();
+        let a: Task = Box::pin(async move {
+            let mut auth = Authenticator::new(Aaguid::new_empty(), Yielding { inner: s1, before: 1, after: 0 }, ScriptedUv::consenting(Log::new()));
+            let req = mc_request(RPS[0], &[7], Some(vec![ident(0)]), true, true, true, false, None);
+            let r = auth.make_credential(req).await.map(|_| ()).map_err(sc_byte);
+            *r1.lock().unwrap() = Some(r);
+        });
+        let b: Task = Box::pin(async move {
+            let mut uv = ScriptedUv::consenting(Log::new());
+            uv.yields = 1;
+            let mut auth = Authenticator::new(Aaguid::new_empty(), Yielding { inner: shared, before: 1, after: 0 }, uv);
+            let _ = auth.get_assertion(ga_request(RPS[0], Some(vec![ident(0)]), false, true, true, false, None)).await;
+        });
+        vec![a, b]
+    }
+    if lock == "mutex" {
+        let shared = Arc::new(tokio::sync::Mutex::new(Yielding { inner: m, before: 1, after: 0 }));
+        let s2 = shared.clone();
+        (tasks(shared, result.clone()), result, Box::new(move || s2.recs().len()))
+    } else {
+        let shared = Arc::new(tokio::sync::RwLock::new(Yielding { inner: m, before: 1, after: 0 }));
+        let s2 = shared.clone();
+        (tasks(shared, result.clone()), result, Box::new(move || s2.recs().len()))
+    }
+}
+
+fn contention_judge(lock: &str, end_ok: bool, result: Option<Result<(), u8>>, records: usize, schedule: &[usize]) -> Vec<Finding> {
+    let case = json!({"contention": {"lock": lock, "schedule": schedule}});
+    let mut fs = vec![];
+    if !end_ok {
+        return fs; // deadlocks are C19's subject
+    }
+    match result {
+        Some(Err(0x19)) => {}
+        Some(Ok(())) => fs.push(Finding::new(format!("contention/lock={lock}/kind=excluded-credential-not-refused"), "the exclude list names a credential held for the same RP, yet a concurrent ceremony let the registration through".to_string(), case.clone())),
+        Some(Err(b)) => fs.push(Finding::new(format!("contention/lock={lock}/kind=excluded-wrong-error"), format!("expected CredentialExcluded (0x19), got {b:#04x}"), case.clone())),
+        None => {}
+    }
+    if records != 1 {
+        fs.push(Finding::new(format!("contention/lock={lock}/kind=refused-but-store-changed"), format!("store holds {records} records after a registration that had to be refused"), case));
+    }
+    fs
+}
+
+fn contention(stats: &mut Stats) -> Result<(u64, u64), String> {
+    use crate::core::exec;
+    let (mut schedules, mut points) = (0u64, 0u64);
+    for lock in ["mutex", "rwlock"] {
+        let current: std::cell::RefCell<Option<(Arc<std::sync::Mutex<Option<Result<(), u8>>>>, Box<dyn Fn() -> usize>)>> = std::cell::RefCell::new(None);
+        let mut found: Vec<Finding> = vec![];
+        let st = exec::explore(
+            || {
+                let (tasks, result, recs) = contention_system(lock);
+                *current.borrow_mut() = Some((result, recs));
+                tasks
+            },
+            None,
+            400,
+            200_000,
+            |ex| {
+                let cur = current.borrow();
+                let (result, recs) = cur.as_ref().unwrap();
+                let ok = ex.end == exec::End::AllDone;
+                let r = *result.lock().unwrap();
+                let n = if ok { recs() } else { 1 };
+                if found.len() < 4 {
+                    found.extend(contention_judge(lock, ok, r, n, &ex.choices));
+                }
+            },
+        )?;
+        schedules += st.schedules;
+        points += st.points;
+        stats.evaluations += st.schedules;
+        stats.count("contention_schedules", st.schedules);
+        stats.outcome(&format!("contention:{lock}"));
+        stats.findings_from(found);
+    }
+    Ok((schedules, points))
+}
+
 pub fn run(ctx: &Ctx) -> Result<Run, String> {
     let cs = cases(ctx.tier);
     let mut stats = par::sweep_cases(&cs, ctx.threads, |c, st| {
@@ -317,10 +412,11 @@ pub fn run(ctx: &Ctx) -> Result<Run, String> {
     for c in cs.iter().step_by(cs.len() / 4 + 1) {
         stats.samples.push(serde_json::to_value(c).unwrap());
     }
-    let n = cs.len() as u64;
+    let (csched, _) = contention(&mut stats)?;
+    let n = cs.len() as u64 + csched;
     let mut run = Run::from_stats(
         "model_checking",
-        "universe of 4 credentials (2 RPs x 2, equal user handles across RPs): all 16 store contents x RP in {a, b, RP without credentials} x lists {absent, empty, sub-lists of the 4 ids + 1 unknown id (size <= 2 in both orders quick, all 31 thorough)} x transports hints on the descriptors {none, disjoint from the authenticator's, overlapping, mixed, empty} x listing order {newest, oldest first} for get_assertion (allow list) and make_credential (exclude list) on the real Authenticator over the contract store; and the same contents/lists/RPs against find_credentials of MemoryStore, Option<Passkey> and their four lock wrappers (wrappers compared with the store they wrap). Non-trivial = distinct case with a non-empty store",
+        "universe of 4 credentials (2 RPs x 2, equal user handles across RPs): all 16 store contents x RP in {a, b, RP without credentials} x lists {absent, empty, sub-lists of the 4 ids + 1 unknown id (size <= 2 in both orders quick, all 31 thorough)} x transports hints on the descriptors {none, disjoint from the authenticator's, overlapping, mixed, empty} x listing order {newest, oldest first} for get_assertion (allow list) and make_credential (exclude list) on the real Authenticator over the contract store; and the same contents/lists/RPs against find_credentials of MemoryStore, Option<Passkey> and their four lock wrappers (wrappers compared with the store they wrap); plus every interleaving of a registration whose exclude list names a held credential with a concurrent assertion over Arc<Mutex<_>> and Arc<RwLock<_>> (must be refused in every schedule). Non-trivial = distinct case with a non-empty store",
         true,
         stats,
     );
@@ -330,6 +426,15 @@ pub fn run(ctx: &Ctx) -> Result<Run, String> {
 }
 
 pub fn replay(_ctx: &Ctx, case: &Value) -> Result<Vec<Finding>, String> {
+    if let Some(cn) = case.get("contention") {
+        let lock = cn["lock"].as_str().unwrap_or("mutex").to_string();
+        let schedule: Vec<usize> = serde_json::from_value(cn["schedule"].clone()).map_err(|e| e.to_string())?;
+        let (tasks, result, recs) = contention_system(&lock);
+        let ex = crate::core::exec::run_schedule(tasks, &schedule, 400)?;
+        let ok = ex.end == crate::core::exec::End::AllDone;
+        let r = *result.lock().unwrap();
+        return Ok(contention_judge(&lock, ok, r, if ok { recs() } else { 1 }, &schedule));
+    }
     let c: Case = serde_json::from_value(case.clone()).map_err(|e| format!("bad C05 case: {e}"))?;
     let _ = json!(0);
     Ok(eval(&c).0)
